@@ -4,7 +4,7 @@
 
   Reading of the statement.  The code under test is `rtosc_count_printed_arg_vals` (model
   `C11.countPrintedArgVals`), `rtosc_scan_arg_vals` (`C11.scanArgVals`) — the model of C10 with
-  the repairs fixes/C11-01 … C11-06 and float ranges, `Pretty/C11Model.lean` — and
+  the repairs fixes/C11-01 … C11-08 and float ranges, `Pretty/C11Model.lean` — and
   `rtosc_print_arg_vals` with the default options (C10's `printArgVals defaultOpt`).
   The sentences of the grammar of doc/Guide.adoc, "Pretty-printing Messages", are the values of
   `Sentence` (`Pretty/C11Spec.lean`): lists of (value, spelling) choices; `render s L` is the text
@@ -37,8 +37,10 @@
   inside arrays, arrays with an open end; and
   `print_scan_fixpoint` for arrays and for values the printer compresses (`nxA`, five equal-typed
   values in a row).
-  Known finding C11-K1 (`scan_denotes_counterexample`): an unsuffixed octal literal is read as
-  decimal; trigger `hasOctalPlain`.
+  Known finding C11-K1 (`scan_denotes_counterexample`, `checker_scanner_agree_counterexample`): an
+  unsuffixed octal literal is read as decimal; trigger `hasOctalPlain`.
+  Former finding C11-K2 (a numeric literal directly followed by '%' was rejected): repaired by
+  fixes/C11-08, the numeric word ends at the comment sign (`num_comment_reads`, `exTightNum`).
 -/
 import RtoscModel.Proofs.ScanPrint
 import RtoscModel.Proofs.ScanRange
@@ -68,7 +70,8 @@ def SameValues (a b : List Cell) : Prop :=
 /-- **checker_scanner_agree**, full statement: for every sentence and layout the checker accepts
     the text with exactly the number of cells the scanner then writes, and the scanner consumes
     the whole text.  NOT proved in full (and false on the unrepaired part of the code: C11-K1 makes
-    the checker reject `-071 -58 ... -076`); see `checker_scanner_agree_partial`. -/
+    the checker reject `-071 -58 ... -076`, `checker_scanner_agree_counterexample`); see
+    `checker_scanner_agree_partial`. -/
 def checker_scanner_agree_statement : Prop :=
   ∀ (s : Sentence) (L : Layout), s.wf = true → (cells s).isSome = true →
     ∃ (n : Nat) (cs : List Cell),
@@ -80,13 +83,14 @@ def checker_scanner_agree_statement : Prop :=
 def scan_denotes_statement : Prop :=
   ∀ (s : Sentence) (L : Layout) (cs : List Cell), s.wf = true → cells s = some cs → Reads (render s L) cs
 
-/-- the same with the triggers of the known findings C11-K1 (unsuffixed octal literal) and C11-K2
-    (numeric literal directly followed by '%') excluded: what the correspondence check and the
-    oracle test on every generated sentence.  Proved for `Proved` sentences under layouts in which
-    no comment follows a value directly (`scan_denotes_partial`). -/
+/-- the same with the trigger of the known finding C11-K1 (unsuffixed octal literal) excluded: what
+    the correspondence check and the oracle test on every generated sentence — also under layouts
+    that put a comment directly behind a numeric literal (`42%c`, the former finding C11-K2,
+    repaired by fix C11-08).  Proved for `Proved` sentences under layouts in which no comment
+    follows a value directly (`scan_denotes_partial`). -/
 def scan_denotes_modulo_known_statement : Prop :=
   ∀ (s : Sentence) (L : Layout) (cs : List Cell), s.wf = true → hasOctalPlain s = false →
-    hasNumPercent s L = false → cells s = some cs → Reads (render s L) cs
+    cells s = some cs → Reads (render s L) cs
 
 /-- **whitespace_comment_invariance**, full statement: two texts that differ only in the layout
     scan to equal values (whenever both are accepted). -/
@@ -335,59 +339,43 @@ theorem scan_denotes_counterexample : ¬ scan_denotes_statement := by
   rw [e] at this
   exact absurd this (by decide)
 
-/-! ### known finding C11-K2 -/
+/-- `-071 -58 ... -076`: the manual reads -57, then -58 … -62 in steps of -58 - -57 = -1 -/
+def exK1Range : Sentence :=
+  [.val (.int (-57) .oct false), .range (.int (-58) .dec false) (.int (-62) .oct false)]
 
-theorem numPercentFrom_spaced (L : Layout) (h : L.spaced) : ∀ (s : Sentence) (i : Nat), numPercentFrom L i s = false := by
-  have hc : ∀ g : List Gap, (g = [] ∨ startsWs g = true) → startsComment g = false := by
-    intro g hg
-    cases g with
-    | nil => rfl
-    | cons x r => cases x <;> simp_all [startsWs, startsComment]
-  intro s
-  induction s with
-  | nil => intro i; rfl
-  | cons x r ih =>
-    intro i
-    cases r with
-    | nil =>
-      rcases h.2 with ⟨h1, h2⟩ | h1
-      · simp [numPercentFrom, h1, h2, startsComment]
-      · have : startsComment L.trail = false := hc _ (Or.inr h1)
-        cases ht : L.trail with
-        | nil => rw [ht] at h1; simp [startsWs] at h1
-        | cons a b => rw [ht] at this; simp [numPercentFrom, ht, this]
-    | cons y r' => simp [numPercentFrom, hc _ (h.1 i), ih (i + 1)]
+/-- **checker_scanner_agree_counterexample** (known finding C11-K1): the full statement does not
+    hold for the code as it is: with `-071` read as -71 the step is 13, -076 = -76 is not reached
+    from -58 and the checker rejects the text as a whole. -/
+theorem checker_scanner_agree_counterexample : ¬ checker_scanner_agree_statement := by
+  intro h
+  have hw : Sentence.wf exK1Range = true ∧ (cells exK1Range).isSome = true ∧ hasOctalPlain exK1Range = true ∧
+      (∃ k : Int, k < 0 ∧ C11.countPrintedArgVals (render exK1Range L0) = .ok k) := by
+    refine ⟨by decide +kernel, by decide +kernel, by decide +kernel, ?_⟩
+    exact ⟨_, by decide, (by decide +kernel : C11.countPrintedArgVals (render exK1Range L0) = .ok (-2))⟩
+  obtain ⟨hwf, hc, _, k, hk, hcount⟩ := hw
+  obtain ⟨n, cs, h1, _, _⟩ := h _ L0 hwf hc
+  rw [hcount] at h1
+  have := Except.ok.inj h1
+  omega
 
-/-- the proved part lies outside the trigger of C11-K2: under a layout in which no comment
-    follows a value directly no numeric literal is followed by '%' -/
-theorem proved_not_K2 (s : Sentence) (L : Layout) (h : Proved s L) : hasNumPercent s L = false :=
-  numPercentFrom_spaced L h.1 s 0
+/-! ### former finding C11-K2: a comment directly behind a numeric literal (fix C11-08) -/
 
 /-- the layout of `42%c`: a comment without line break directly behind the last value -/
 def L2 : Layout := { L0 with last := some [99] }
 
 /-- `42%c` is a sentence under a layout that puts a comment directly behind the value … -/
-theorem k2_witness : Sentence.wf [SVal.val (.int 42 .dec false)] = true ∧
+theorem num_comment_witness : Sentence.wf [SVal.val (.int 42 .dec false)] = true ∧
     cells [SVal.val (.int 42 .dec false)] = some [Cell.int .i 42] ∧
     render [SVal.val (.int 42 .dec false)] L2 = [52, 50, 37, 99] ∧
     hasNumPercent [SVal.val (.int 42 .dec false)] L2 = true ∧
     hasOctalPlain [SVal.val (.int 42 .dec false)] = false := by
   decide +kernel
 
-/-- … and the checker rejects it, although it accepts `true%c` with the value `true` -/
-theorem k2_count : C11.countPrintedArgVals [52, 50, 37, 99] = .ok (-1) ∧
-    C11.countPrintedArgVals [116, 114, 117, 101, 37, 99] = .ok 1 ∧
-    C11.scanArgVals [116, 114, 117, 101, 37, 99] 1 = .ok (6, [Cell.flag .T]) := by decide +kernel
-
-/-- **checker_scanner_agree_counterexample** (known finding C11-K2): the full statement does not
-    hold for the code as it is: a numeric literal directly followed by a comment is rejected. -/
-theorem checker_scanner_agree_counterexample : ¬ checker_scanner_agree_statement := by
-  intro h
-  obtain ⟨hwf, hc, hr, _, _⟩ := k2_witness
-  obtain ⟨n, cs, h1, _, _⟩ := h _ L2 hwf (by rw [hc]; rfl)
-  rw [hr, k2_count.1] at h1
-  have := Except.ok.inj h1
-  omega
+/-- … and it is read as the value 42 (it was rejected before fix C11-08: `scanf_fmtstr` did not end
+    the numeric word at '%'), like `true%c` is read as `true` -/
+theorem num_comment_reads : Reads [52, 50, 37, 99] [Cell.int .i 42] ∧
+    Reads [116, 114, 117, 101, 37, 99] [Cell.flag .T] :=
+  ⟨⟨by decide +kernel, by decide +kernel⟩, ⟨by decide +kernel, by decide +kernel⟩⟩
 
 /-! ### non-vacuity -/
 
@@ -644,7 +632,7 @@ def exWide : Sentence := [.val (.int (-2100000000) .dec false), .range (.int (-1
     five values, the checker rejects the text -/
 theorem wide_range_counterexample : Sentence.wf exWide = true ∧
     cells exWide = some [.int .i (-2100000000), .rep 5 1, .int .i 600000000, .int .i (-1500000000)] ∧
-    hasOctalPlain exWide = false ∧ hasNumPercent exWide L0 = false ∧
+    hasOctalPlain exWide = false ∧
     C11.countPrintedArgVals (render exWide L0) = .ok (-2) := by
   decide +kernel
 /-! ### instances of the full statement outside the proved class (evaluated, not general) -/
@@ -697,6 +685,24 @@ def exTight : Sentence :=
    .val (.midi 1 2 3 4 true), .val (.blob [1]), .val (.kw .nil)]
 
 example : hasNumPercent exTight exLayoutTight = false ∧ agrees exTight exLayoutTight = true := by decide +kernel
+
+/-- `42 1.5 0x1p+3 2x7 1i 077h 0x2a -5d 1e3f 3...5`: every kind of value end that IS a numeric word
+    (decimal / hexadecimal / suffixed integers, floats in point, exponent, hexadecimal and suffixed
+    notation, a repetition and a range that end in one) -/
+def exTightNum : Sentence :=
+  [.val (.int 42 .dec false), .val (.flt false false (.dec ⟨false, [1], some [5], none, false, false⟩) none),
+   .val (.flt false false (.hex ⟨false, [1], none, 3⟩) none), .rep 2 (.val (.int 7 .dec false)), .val (.int 1 .dec true),
+   .val (.huge 63 .oct), .val (.int 42 .hex false), .val (.flt true true (.dec ⟨true, [5], none, none, false, false⟩) none),
+   .val (.flt false true (.dec ⟨false, [1], none, some 3, false, false⟩) none),
+   .range (.int 3 .dec false) (.int 5 .dec false)]
+
+/-- with a comment directly behind every one of them (`42%c`, the former finding C11-K2, fix C11-08)
+    the text is read as the denotation -/
+theorem exTightNum_reads : Sentence.wf exTightNum = true ∧ hasNumPercent exTightNum exLayoutTight = true ∧
+    agrees exTightNum exLayoutTight = true ∧ agrees exTightNum L0 = true := by decide +kernel
+
+example : String.ofList ((render exTightNum exLayoutTight).map (fun b => Char.ofNat b.toNat)) =
+    "%lead\n42%c\n1.5%\n %x\n0x1p+3%c\n2x7%\n %x\n1i%c\n077h%\n %x\n0x2a%c\n-5d%\n %x\n1e3f%c\n3...5%end" := by decide +kernel
 
 example : String.ofList ((render [SVal.val (.kw .true_), .val (.kw .false_)] exLayoutTight).map (fun b => Char.ofNat b.toNat)) =
     "%lead\ntrue%c\nfalse%end" := by decide +kernel
